@@ -14,7 +14,7 @@ if [ -d "$SRC/out" ]; then cp "$SRC/out/patch.diff" "$OUT/patch.diff"; cp "$SRC/
 cd "$TMP"; git init -q . >/dev/null 2>&1; git add -A >/dev/null 2>&1; git -c user.email=x -c user.name=x commit -qm base >/dev/null 2>&1
 export CARGO_TARGET_DIR=$TMP/target CARGO_NET_OFFLINE=true
 mkdir -p tests; cp "$OUT/seed_demo.rs" tests/seed_demo.rs
-FLAGS=$(python3 -c "import json,re;m=json.load(open('$OUT/agent_meta.json'));c=m.get('demo_cmd','');print(' '.join(re.findall(r'--no-default-features|--features \S+',c)))")
+FLAGS=$(python3 -c "import json,re;m=json.load(open('$OUT/agent_meta.json'));c=m.get('demo_cmd','');print(' '.join(re.findall(r'--release|--no-default-features|--features \S+',c)))")
 echo "demo flags: [$FLAGS]"
 demo_base=$(timeout 900 cargo test --offline $FLAGS --test seed_demo 2>&1 | grep -E "^test result" | tail -1)
 if ! git apply "$OUT/patch.diff"; then echo "PATCH DOES NOT APPLY"; echo '{"status":"patch does not apply"}' > "$OUT/eval.json"; exit 1; fi
